@@ -14,7 +14,7 @@ Two consumers: ``to_dynamic`` (oracle side: dynamic message over the INPUT descr
 ``request={...}``; well-known leaf types are given as pb2 instances).
 """
 from google.protobuf import descriptor as _d
-from google.protobuf import duration_pb2, field_mask_pb2, timestamp_pb2
+from google.protobuf import duration_pb2, field_mask_pb2, timestamp_pb2, wrappers_pb2
 
 FD = _d.FieldDescriptor
 
@@ -29,6 +29,9 @@ WKT_LEAF = {
     "google.protobuf.Timestamp": timestamp_pb2.Timestamp,
     "google.protobuf.Duration": duration_pb2.Duration,
     "google.protobuf.FieldMask": field_mask_pb2.FieldMask,
+    "google.protobuf.Int32Value": wrappers_pb2.Int32Value,
+    "google.protobuf.UInt32Value": wrappers_pb2.UInt32Value,
+    "google.protobuf.StringValue": wrappers_pb2.StringValue,
 }
 
 _WORDS = ["a", "b7", "x-y", "wid get", "é", "q&a=1", "50%", "p/q", "Zed", "long" * 5, "~t.", "k+v"]
@@ -145,6 +148,10 @@ def _rand_msg(rng, fd, depth, max_depth):
         return {"seconds": rng.randint(1, 2_000_000_000), "nanos": rng.choice([0, 1000, 999999000, 123456000])}
     if fn == "google.protobuf.Duration":
         return {"seconds": rng.randint(1, 100000), "nanos": rng.choice([0, 500000000])}
+    if fn in ("google.protobuf.Int32Value", "google.protobuf.UInt32Value"):
+        return {"value": rng.randint(1, 50)}
+    if fn == "google.protobuf.StringValue":
+        return {"value": rand_string(rng)}
     if fn == "google.protobuf.FieldMask":
         return {"paths": [rng.choice(["name", "size", "a.b", "tags"]) for _ in range(rng.randint(1, 2))]}
     return rand_valuation(rng, fd.message_type, depth + 1, max_depth, p_field=0.5)
